@@ -656,6 +656,11 @@ func c16Messages(r *an.Run, m *runModel) {
 		good := len(src) > 0
 		for _, c := range src {
 			givenPath := false
+			// the output stage as a function of its own: every error it hands back must itself name the file
+			// (formatted from the name as Run hands it over, and the cause) or come from a call given the path
+			if h := an.StaticCallee(c); h != nil && an.InModule(h) && h.Blocks != nil && an.FuncPkgPath(h) == an.FuncPkgPath(f) && stageErrorsNameTheFile(r, m, h) {
+				givenPath = true
+			}
 			for _, a := range an.CallArgs(c) {
 				if a == m.filename || strings.HasSuffix(an.Path(a), ".Provided") || strings.HasSuffix(an.Path(a), ".Absolute") {
 					givenPath = true
@@ -771,4 +776,72 @@ func closureBindingOf(f, g *ssa.Function, i int) ssa.Value {
 		}
 	}
 	return nil
+}
+
+// stageErrorsNameTheFile: h is a function of package main called from Run's
+// file loop (the output stage). It reports whether every non-nil error h
+// returns is either formatted with fmt.Errorf from arguments that include the
+// file's name (as seen from Run) and a cause, or is the unwrapped error of a
+// call that was given the file's path, or of a write to the output stream.
+func stageErrorsNameTheFile(r *an.Run, m *runModel, h *ssa.Function) bool {
+	isSink := false
+	for _, sk := range sinksOfRun(r, m) {
+		if sk.host == h {
+			isSink = true
+		}
+	}
+	if !isSink {
+		return false
+	}
+	isName := func(v ssa.Value) bool {
+		if lv := liftIn(m.run, v); lv != nil && sameFileValue(lv, m.filename) {
+			return true
+		}
+		p := an.Path(v)
+		return strings.HasSuffix(p, ".Provided") || strings.HasSuffix(p, ".Absolute")
+	}
+	n := 0
+	for _, ret := range an.Returns(h) {
+		ev := ret.Results[len(ret.Results)-1]
+		for _, leaf := range phiLeaves(ev) {
+			if an.IsNilConst(leaf) {
+				continue
+			}
+			n++
+			if c, ok := leaf.(*ssa.Call); ok && an.IsCallTo(c, "fmt.Errorf") {
+				hasName, hasCause := false, false
+				for v := range an.BackSlice(c.Call.Args[1], an.SliceOpts{ThroughMemory: true}) {
+					if isName(v) {
+						hasName = true
+					}
+					if an.IsErrorType(v.Type()) {
+						hasCause = true
+					}
+				}
+				if !hasName || !hasCause {
+					return false
+				}
+				continue
+			}
+			src := rootErrorCalls(leaf)
+			if len(src) == 0 {
+				return false
+			}
+			for _, c := range src {
+				ok := false
+				for _, a := range an.CallArgs(c) {
+					if isName(a) {
+						ok = true
+					}
+				}
+				if _, isW := isStdoutWrite(c); isW {
+					ok = true
+				}
+				if !ok {
+					return false
+				}
+			}
+		}
+	}
+	return n > 0
 }
